@@ -13,8 +13,9 @@ EXPLANATION = (
     "conversion that records it; (d) every driver poll entry starts with poll_connection_error whose first test is the "
     "sticky handled error; (e) set_conn_error_and_wake stores before it wakes, every stream-side reporter uses the waking "
     "variant, and poll_connection_error reads the cell after registering the waker on every path to Pending (no lost "
-    "wake-up for any interleaving). Trusted: semantics of OnceLock and AtomicWaker.")
-RULES = "C05-a write-once cell (A12/A10); C05-b first error wins (A4/A10); C05-c closed once with that code (A10/A4/A2); C05-d driver stickiness (A2); C05-e store-then-wake / register-then-check (A2)"
+    "wake-up for any interleaving). Trusted: semantics of OnceLock and AtomicWaker."
+    " C05-b also reads the converter itself as a table: Internal -> Local{Application{that error's code and reason}}, transport Timeout -> Timeout, any other transport error -> Remote(the same error).")
+RULES = "C05-a write-once cell (A12/A10); C05-b first error wins, converter keeps code/reason/peer error (A4/A10/A3); C05-c closed once with that code (A10/A4/A2); C05-d driver stickiness (A2); C05-e store-then-wake / register-then-check (A2)"
 
 CS = "h3::shared_state::ConnectionState::"
 CI = "h3::connection::ConnectionInner::"
